@@ -28,6 +28,12 @@ def configs(tier, known):
     for kind, fl in (("mixin", "tree"), ("light", "loop"), ("mixin", "loop"), ("light", "tree")) + ((("node", "value"), ("mixin", "attr")) if tier == "thorough" else ()):
         out.append(dict(kind=kind, n=3, cfg=dict(CFG, extras=False), hidden=False, d=1 if tier == "quick" else 2, persistent=P2,
                         assertions=0, judge="c03", extra=extra, only_pre_first=True, flavour=fl))
+    # histories in which an earlier call was aborted by a hook (state surviving a failed call inside the library)
+    for kind in ("mixin",) if tier == "quick" else ("mixin", "light"):
+        out.append(dict(kind=kind, n=3, cfg=dict(CFG, extras=False, read=False), hidden=False, d=0, assertions=0, judge="c03", extra=extra,
+                        reclimit=120, name="%s N=3 two-step: aborted call (any hook once / persistent pre hook), then any call" % kind,
+                        two_step=dict(d1=1, persistent1=P4, d2=0 if tier == "quick" else 1, persistent2=() if tier == "quick" else P2,
+                                      only_pre_first2=True, L=2 if tier == "quick" else 3)))
     for kind in ("mixin", "light"):
         out.append(dict(kind=kind, n=3, cfg=dict(CFG, extras=False), hidden=False, d=0, persistent=P4, assertions=0,
                         judge="c03", extra=extra, reclimit=120,
